@@ -166,6 +166,8 @@ func intRange(t types.Type) (lo, hi *Term, bits uint, signed bool) {
 type Region struct {
 	Blk   *Term
 	C     *Term // contents, (Array Int Int), indexed by absolute offset inside the block
+	Base  *Term // own base array of a block returned by a contract call
+	Written bool // contents were updated after creation
 	Fresh bool  // allocated on this path after function entry
 	Input bool  // reachable from the parameters at entry
 	Virt  bool  // ghost sequence (spec function result)
